@@ -9,7 +9,7 @@ structure AcceptFacts (pol : Policy) (c : Chain) (s : Pool) (t : TxAbs) (isNew r
     (cs : List TxAbs) : Prop where
   notInPool : s.inPool t.id = false
   notOrphan : rdo = true → s.inOrphans t.id = false
-  size : ¬ t.ssize < minStandardTxNonWitnessSize
+  size : ¬ t.ssize < pol.minStdSize
   sane : t.sane = true
   nodup : t.ins.Nodup
   notCb : t.coinbase = false
